@@ -405,7 +405,19 @@ def apply_op(world, op, check=True):
         for c in CPLX:
             cplx_parts |= {c + "r", c + "i"}
         named = op[1] if kind in ("rp2xy", "xy2rp", "std_polar") else None
+
+        def one_component_tied(c):
+            # exactly one component tied to another variable's component (phase-only or radius-only tie by name): no
+            # other coordinate form exists in which both variables keep their values (the library's own
+            # standard_complex skips such variables); preservation under coordinate operations is not claimed for them
+            pr = {m[:-1] for m in world.groups[c + "r"] if m != c + "r"}
+            pi_ = {m[:-1] for m in world.groups[c + "i"] if m != c + "i"}
+            return pr != pi_
+
+        partial = {c for c in CPLX if one_component_tied(c)}
         for c in CPLX:
+            if c in partial and any(k.startswith("tie_real") for k in (s_[0] for s_ in world.setup)):
+                continue
             if named is not None and c != named and (c + "r") not in world.fixed:
                 # a variable that shares a real component with the switched one: the statement
                 # claims preservation only for the switched variable itself
@@ -639,6 +651,10 @@ def run(tier, seed, only=None):
         for d in range(depth):
             if not frontier:
                 break
+            if tier == "thorough" and d == depth - 1 and "C16_DEPTH" not in os.environ:
+                # last level of the thorough tier: only for the basic set-ups (the additional ones stop one level earlier)
+                frontier = [it for it in frontier if it["setup"] in SETUPS_QUICK]
+                rep.extra["depth_note"] = "basic set-ups explored to depth %d, additional thorough set-ups to depth %d" % (depth, depth - 1)
             for j, it in enumerate(frontier):
                 it["dup_check"] = (j % 50 == 0)
             results = pool.run_items("mc.props.C16", "expand", frontier, chunksize=4)
